@@ -180,6 +180,10 @@ class StringifyMapper(Mapper):
     def map_subscript(self, expr, enclosing_prec, *args, **kwargs):
         if isinstance(expr.index, tuple):
             index_str = self.join_rec(", ", expr.index, PREC_NONE, *args, **kwargs)
+            if len(expr.index) == 1:
+                index_str += ","
+            elif not expr.index:
+                index_str = "()"
         else:
             index_str = self.rec(expr.index, PREC_NONE, *args, **kwargs)
 
